@@ -52,7 +52,8 @@ pub fn gen_tick(rng: &mut Rng, avoid: bool, big: bool, n_small: usize) -> (State
         let wi = rng.usize_below(n_inst);
         let rule = rng.below(u64::from(N_RULES)) as u8;
         let shard = rng.below(u64::from(shard_pool)) as u8;
-        let prog = gen_prog(rng, &state, wi, rule, nonce, &kn);
+        let templ = if rng.chance(1, 12) { crate::world::gen::gen_repoint_delete(rng, &state, wi, rule, nonce) } else { None };
+        let prog = templ.unwrap_or_else(|| gen_prog(rng, &state, wi, rule, nonce, &kn));
         nonce += 1;
         let w = state.insts[wi].w;
         state.insts[wi].progs.push((k as u16, shard, prog));
